@@ -244,19 +244,25 @@ func (w *Writer) DeleteNode(x *skiplist.Node) (success bool) {
 		}
 	}()
 
-	x.SetLink(nil)
 	sn := w.GetCurrSn()
 	gotItem := (*Item)(x.Item())
 	if gotItem.bornSn == sn {
 		success = w.store.DeleteNode(x, w.insCmp, w.buf, &w.slSts1)
-
-		barrier := w.store.GetAccesBarrier()
-		barrier.FlushSession(unsafe.Pointer(x))
+		if success {
+			// Only the caller which unlinked the node owns it: reset its
+			// link and hand it over to the barrier exactly once.
+			x.SetLink(nil)
+			barrier := w.store.GetAccesBarrier()
+			barrier.FlushSession(unsafe.Pointer(x))
+		}
 		return
 	}
 
 	success = atomic.CompareAndSwapUint32(&gotItem.deadSn, 0, sn)
 	if success {
+		// The node may already be part of a garbage list if the delete lost;
+		// its link must be touched only by the winner.
+		x.SetLink(nil)
 		if w.gctail == nil {
 			w.gctail = x
 			w.gchead = w.gctail
